@@ -71,6 +71,73 @@ class RecStream(io.BytesIO):
         return super().readline(n)
 
 
+class NonSeekable(io.IOBase):
+    """A pipe-like stream: readable, not seekable; tell()/seek() raise like they do on a pipe or FIFO."""
+
+    def __init__(self, data: bytes):
+        super().__init__()
+        self._b = io.BytesIO(data)
+        self.calls = 0
+        self.horizon = 4 * len(data) + 16
+
+    def _tick(self):
+        self.calls += 1
+        if self.calls > self.horizon:
+            raise Horizon()
+
+    def read(self, n=-1):
+        self._tick()
+        return self._b.read(n)
+
+    def readline(self, n=-1):
+        self._tick()
+        return self._b.readline(n)
+
+    def readable(self):
+        return True
+
+    def seekable(self):
+        return False
+
+    def tell(self):
+        raise OSError(29, "Illegal seek")
+
+    def seek(self, *a):
+        raise OSError(29, "Illegal seek")
+
+    @property
+    def pos(self):
+        return self._b.tell()
+
+
+class Minimal:
+    """The least a 'viable data stream' offers: read(n) and readline() only."""
+
+    def __init__(self, data: bytes):
+        self._b = io.BytesIO(data)
+        self.calls = 0
+        self.horizon = 4 * len(data) + 16
+
+    def read(self, n=-1):
+        self.calls += 1
+        if self.calls > self.horizon:
+            raise Horizon()
+        return self._b.read(n)
+
+    def readline(self, n=-1):
+        self.calls += 1
+        if self.calls > self.horizon:
+            raise Horizon()
+        return self._b.readline(n)
+
+    @property
+    def pos(self):
+        return self._b.tell()
+
+
+STREAM_KINDS = {"bytesio": RecStream, "nonseekable": NonSeekable, "minimal": Minimal}
+
+
 class DevStream(RecStream):
     """Stream whose answers deviate at chosen call indices: a read(n) or readline() answered short
     (fewer bytes than asked although more data follows - e.g. a serial timeout).  devs: {call index: length}."""
@@ -176,12 +243,60 @@ def run_reader(data: bytes, cfg: dict, stream=None, max_items=None, use_iter=Fal
     except Exception as e:  # noqa: BLE001 - the oracle classifies it
         r.raised = e
     try:
-        r.tell = st.tell()
+        r.tell = st.pos if hasattr(st, "pos") else st.tell()
     except Exception:
         r.tell = None
     r.calls = getattr(st, "calls", 0)
     r.size = len(data)
     return r
+
+
+def run_group(data: bytes, cfgs, use_iter=False):
+    """Several readers over copies of the same data, all CONSTRUCTED first and then drained one item at
+    a time in round-robin order: live readers must not influence one another.  Returns [Run]."""
+    runs, readers, streams_, its = [], [], [], []
+    for cfg in cfgs:
+        r = Run()
+        st = RecStream(data)
+        handler = None
+        if cfg.get("handler"):
+            def handler(err, r=r):
+                r.errors.append(err)
+                r.events.append(("err", len(r.errors) - 1))
+        try:
+            rd = UBXReader(st, **cfg_kwargs(cfg, handler))
+        except Exception as e:  # noqa: BLE001
+            r.raised = e
+            rd = None
+        runs.append(r)
+        readers.append(rd)
+        streams_.append(st)
+    live = [i for i, rd in enumerate(readers) if rd is not None]
+    limit = len(data) + 4
+    while live:
+        for i in list(live):
+            r, rd = runs[i], readers[i]
+            try:
+                raw, parsed = rd.read()
+                if raw is None and parsed is None:
+                    live.remove(i)
+                    continue
+                r.items.append((raw, parsed))
+                r.events.append(("item", len(r.items) - 1))
+                if len(r.items) > limit:
+                    r.horizon = True
+                    live.remove(i)
+            except Horizon:
+                r.horizon = True
+                live.remove(i)
+            except Exception as e:  # noqa: BLE001
+                r.raised = e
+                live.remove(i)
+    for r, st in zip(runs, streams_):
+        r.tell = st.tell()
+        r.calls = st.calls
+        r.size = len(data)
+    return runs
 
 
 def item_sigs(run: Run):
@@ -250,6 +365,8 @@ TOKENS = {
     "N1": (ref.NMEA, "frame", _NMEA1),
     "Nbad": (ref.NMEA, "frame", _bad(_NMEA1, -4)),
     "Npubx": (ref.NMEA, "frame", ref.nmea_sentence("PUBX,04,223232.00,040222,167552.00,2195,18,-9464,-23.0,21")),
+    "Nunk": (ref.NMEA, "frame", ref.nmea_sentence("GNXXX,1,2,abc")),  # unknown sentence type, valid checksum
+    "Nnostar": (ref.NMEA, "frame", b"$GNGLL,1,2\r\n"),  # no '*': pynmeagps returns None (no error) -> delivered as (raw, None)
     "R1": (ref.RTCM, "frame", _R1005),
     "R2": (ref.RTCM, "frame", ref.rtcm_frame(bytes([0x3E, 0xD0]))),
     "Rbad": (ref.RTCM, "frame", _bad(_R1005)),
